@@ -1,11 +1,25 @@
 /-
-C09  Nearest-point queries return the global minimum — the selection logic and the quintic.
+C09  Nearest-point queries return the global minimum.
 
-`Gen.nearest_point_on_curve_bezier_root_finder` (the candidate loop of `nearest_t`, with the Bézier-form
-construction and the root finder as PARAMETERS), `Gen.Z` (the table of `distance_in_bezier_form`) and
-`Gen.count_x_axis_crossings` are regenerated from roots/nearest_point_bezier_root_finder.rs and roots/find_roots.rs.
+Regenerated from the Rust source on every run: `Gen.nearest_point_on_curve_bezier_root_finder` (the candidate loop of
+`nearest_t`, with the Bézier-form construction and the root finder as PARAMETERS), `Gen.Z` (the table of
+`distance_in_bezier_form`), `Gen.curve_nearest_point`, `Gen.curve_distance_to`, `Gen.path_closest_point`
+(Gen/Nearest.lean) and the whole root finder `Gen.find_bezier_roots` with `count_x_axis_crossings`, `flat_enough`,
+`find_x_intercept`, `find_x_intercept_newton_raphson`, `de_casteljau_n`, `derivative_n`, `subdivide_n` (Gen/Roots.lean).
+Hand model (literal, uses `Gen.Z`): `Model.Nearest.distance_in_bezier_form`.
+
+Parts: (I) candidate loop = arg-min (any root finder); (II) the quintic identity; (III) global minimum over ℝ from a
+completeness hypothesis on the reported roots (exact and Lipschitz versions); (IV) the root finder: the generated loop
+is the step function `C09L.specStep`, pruning is sound, halves are restrictions, the finished sections tile [0,1],
+every zero is accounted for up to the named flat-leaf hypothesis; (V) path_closest_point, nearest_point, distance_to.
 -/
 import FloVerif.Gen.Nearest
+import FloVerif.Lemmas.Nearest
+import FloVerif.Lemmas.NearestRoots
+import FloVerif.Lemmas.NearestCalc
+import FloVerif.Lemmas.NearestPath
+import FloVerif.Lemmas.NearestOneCrossing
+import Mathlib.Analysis.Real.Sqrt
 import Mathlib.Tactic.Ring
 import Mathlib.Tactic.NormNum.OfScientific
 import Mathlib.Tactic.Linarith
@@ -30,6 +44,8 @@ def pick (f : K → K) : List K → T2 K K → T2 K K
   | [], st => st
   | t :: ts, st => pick f ts (if f t ≤ st.t1 then T2.mk t (f t) else st)
 
+/-- the fold returns a state whose value is `f` of its argument, not above the start value nor above `f t` for any
+    candidate `t`, and whose argument is the start argument or a candidate -/
 theorem pick_spec (f : K → K) : ∀ (l : List K) (st : T2 K K), st.t1 = f st.t0 →
     (pick f l st).t1 = f (pick f l st).t0 ∧ (pick f l st).t1 ≤ st.t1 ∧ (∀ t ∈ l, (pick f l st).t1 ≤ f t) ∧
     ((pick f l st).t0 = st.t0 ∨ (pick f l st).t0 ∈ l)
@@ -124,5 +140,511 @@ theorem Z_table : (Z : List (List K)) = [[1, 3/5, 3/10, 1/10], [2/5, 3/5, 3/5, 2
 
 /-! Non-vacuity: with roots `[1/2, 2]` reported, the candidates are `1/2` and `1`. -/
 example : candidates ([1/2, 2] : List ℚ) = [1/2, 1] := by norm_num [candidates]
+
+/-! ## (II) The quintic of `distance_in_bezier_form` -/
+open C09L Model.Nearest
+
+/-- QUINTIC IDENTITY (any ordered field, all control points, query points and `t`): evaluated by the generated
+    `de_casteljau_n`, the six control points the model of `distance_in_bezier_form` builds give the point
+    `(t, (C(t) − point)·C'(t))`: the x-coefficients are `k/5` so that x(t) = t, and the degree-5 Bernstein polynomial of
+    the y-coefficients is the dot product of the offset with the tangent `C'(t)` (the generated `derivative4`
+    evaluated by the generated `de_casteljau3`). Depends on `Gen.Z`: another table breaks this proof. -/
+theorem quintic_identity (w1 w2 w3 w4 point : V2 K) (t : K) :
+    (distance_in_bezier_form w1 w2 w3 w4 point).map (·.x) = [0, 1 / 5, 2 / 5, 3 / 5, 4 / 5, 1] ∧
+    de_casteljau_n t (distance_in_bezier_form w1 w2 w3 w4 point) =
+      V2.mk t (dot (curve_point_at_pos w1 w2 w3 w4 t - point) (tangentAt w1 w2 w3 w4 t)) := by
+  constructor
+  · rw [quintic_points]; simp
+  · rw [quintic_points, dcn6]
+    apply v2_ext
+    · simp only [bern5]; ring
+    · exact quintic_bern w1 w2 w3 w4 point t
+
+/-- the quintic is a section over [0,1] in the sense of the root-finder theorems below -/
+theorem quintic_is_section (w1 w2 w3 w4 point : V2 K) :
+    IsSec (perpDot w1 w2 w3 w4 point) (distance_in_bezier_form w1 w2 w3 w4 point) 0 1 := by
+  refine ⟨quinticY w1 w2 w3 w4 point 0, quinticY w1 w2 w3 w4 point 1, quinticY w1 w2 w3 w4 point 2,
+    quinticY w1 w2 w3 w4 point 3, quinticY w1 w2 w3 w4 point 4, quinticY w1 w2 w3 w4 point 5, ?_, fun u => ?_⟩
+  · conv_lhs => rw [quintic_points]
+    simp [mkSec, affX]
+  · rw [quintic_bern]; congr 1; ring
+
+/-! Non-vacuity: the arch (0,0),(30,60),(70,60),(100,0) queried at (50,0): the quintic has the coefficients the
+    Rust code computes (−4500, 3000, 1890, −1890, −3000, 4500) and vanishes at t = 1/2 (the apex is a critical point). -/
+example : (distance_in_bezier_form (K := ℚ) ⟨0, 0⟩ ⟨30, 60⟩ ⟨70, 60⟩ ⟨100, 0⟩ ⟨50, 0⟩).map (·.y) =
+    [-4500, 3000, 1890, -1890, -3000, 4500] := by
+  rw [dbf_explicit]; simp [dot]; norm_num
+example : perpDot (K := ℚ) ⟨0, 0⟩ ⟨30, 60⟩ ⟨70, 60⟩ ⟨100, 0⟩ ⟨50, 0⟩ (1 / 2) = 0 := by
+  simp [perpDot, tangentAt, derivative4, de_casteljau3, de_casteljau2, curve_point_at_pos, basis, dot]; norm_num
+
+/-! ## (III) Global minimum over ℝ -/
+
+/-- the quintic handed to the root finder, evaluated at `t` by the generated `de_casteljau_n` -/
+def quinticAt (w1 w2 w3 w4 point : V2 K) (t : K) : K :=
+  (de_casteljau_n t (distance_in_bezier_form w1 w2 w3 w4 point)).y
+
+/-- the quintic the root finder sees is `(C(t) − point)·C'(t)` (restatement of `quintic_identity` for `quinticAt`) -/
+theorem quinticAt_eq (w1 w2 w3 w4 point : V2 K) (t : K) :
+    quinticAt w1 w2 w3 w4 point t = perpDot w1 w2 w3 w4 point t := by
+  unfold quinticAt perpDot
+  rw [(quintic_identity w1 w2 w3 w4 point t).2]
+
+/-- DERIVATIVES (ℝ): the tangent `tangentAt` (generated `derivative4` + `de_casteljau3`) is the derivative of the
+    generated `point_at_pos`, coordinate by coordinate, and the squared distance to the query point has the derivative
+    `2·(C(t) − point)·C'(t)`, i.e. twice the quintic -/
+theorem distSq_hasDerivAt (w1 w2 w3 w4 point : V2 ℝ) (t : ℝ) :
+    HasDerivAt (fun t => (curve_point_at_pos w1 w2 w3 w4 t).x) (tangentAt w1 w2 w3 w4 t).x t ∧
+    HasDerivAt (fun t => (curve_point_at_pos w1 w2 w3 w4 t).y) (tangentAt w1 w2 w3 w4 t).y t ∧
+    HasDerivAt (distSq w1 w2 w3 w4 point) (2 * quinticAt w1 w2 w3 w4 point t) t := by
+  have h0 : (0.0 : ℝ) = 0 := by norm_num
+  have h1 : (1.0 : ℝ) = 1 := by norm_num
+  have h3 : (3.0 : ℝ) = 3 := by norm_num
+  have hX : HasDerivAt (fun t => (curve_point_at_pos w1 w2 w3 w4 t).x) (tangentAt w1 w2 w3 w4 t).x t := by
+    have e : (fun t : ℝ => (curve_point_at_pos w1 w2 w3 w4 t).x) = fun t =>
+        w1.x + (3 * (w2.x - w1.x)) * t + (3 * w1.x - 6 * w2.x + 3 * w3.x) * t ^ 2 +
+          (w4.x - 3 * w3.x + 3 * w2.x - w1.x) * t ^ 3 := by
+      funext t; simp [curve_point_at_pos, basis, h1, h3]; ring
+    rw [e]
+    exact (cubic_hasDerivAt _ _ _ _ t).congr_deriv (by
+      simp [tangentAt, derivative4, de_casteljau3, de_casteljau2, h1, h3]; ring)
+  have hY : HasDerivAt (fun t => (curve_point_at_pos w1 w2 w3 w4 t).y) (tangentAt w1 w2 w3 w4 t).y t := by
+    have e : (fun t : ℝ => (curve_point_at_pos w1 w2 w3 w4 t).y) = fun t =>
+        w1.y + (3 * (w2.y - w1.y)) * t + (3 * w1.y - 6 * w2.y + 3 * w3.y) * t ^ 2 +
+          (w4.y - 3 * w3.y + 3 * w2.y - w1.y) * t ^ 3 := by
+      funext t; simp [curve_point_at_pos, basis, h1, h3]; ring
+    rw [e]
+    exact (cubic_hasDerivAt _ _ _ _ t).congr_deriv (by
+      simp [tangentAt, derivative4, de_casteljau3, de_casteljau2, h1, h3]; ring)
+  refine ⟨hX, hY, ?_⟩
+  have e : distSq w1 w2 w3 w4 point = fun t =>
+      ((curve_point_at_pos w1 w2 w3 w4 t).x - point.x) * ((curve_point_at_pos w1 w2 w3 w4 t).x - point.x) +
+      ((curve_point_at_pos w1 w2 w3 w4 t).y - point.y) * ((curve_point_at_pos w1 w2 w3 w4 t).y - point.y) := by
+    funext t; simp [distSq, dot, h0]
+  rw [e, quinticAt_eq]
+  have h := distSq_hasDerivAt_aux (fun t => (curve_point_at_pos w1 w2 w3 w4 t).x)
+    (fun t => (curve_point_at_pos w1 w2 w3 w4 t).y) (fun t => (tangentAt w1 w2 w3 w4 t).x)
+    (fun t => (tangentAt w1 w2 w3 w4 t).y) point.x point.y t hX hY
+  exact h.congr_deriv (by simp [perpDot, dot, h0])
+
+/-- COMPLETENESS of a list of reported roots for a function `Q` on (0,1): every zero of `Q` strictly inside (0,1) is
+    in the list, except zeros around which `Q` is non-negative (no sign change from − to +: such a zero is not a strict
+    local minimum of the distance, and these are exactly the zeros the root finder's pruning may drop) -/
+def Complete (Q : ℝ → ℝ) (roots : List ℝ) : Prop :=
+  ∀ t, 0 < t → t < 1 → Q t = 0 → t ∈ roots ∨ ∃ lo hi, lo < t ∧ t < hi ∧ ∀ y, lo ≤ y → y ≤ hi → 0 ≤ Q y
+
+/-- GLOBAL MINIMUM (ℝ, every cubic, every query point, every root finder `fbr`): if the list `fbr` returns for the
+    quintic is complete in the sense above, then the parameter the generated
+    `nearest_point_on_curve_bezier_root_finder` returns lies in [0,1] and its curve point is at least as close to the
+    query point as the curve point at EVERY `t ∈ [0,1]`. (Extreme value theorem + Fermat + monotonicity, on top of
+    `nearest_is_argmin` and `distSq_hasDerivAt`.) -/
+theorem nearest_global_min (fbr : List (V2 ℝ) → List ℝ) (w1 w2 w3 w4 point : V2 ℝ)
+    (hc : Complete (quinticAt w1 w2 w3 w4 point) (fbr (distance_in_bezier_form w1 w2 w3 w4 point))) :
+    let r := nearest_point_on_curve_bezier_root_finder distance_in_bezier_form fbr w1 w2 w3 w4 point
+    (0 ≤ r ∧ r ≤ 1) ∧ ∀ t, 0 ≤ t → t ≤ 1 → distSq w1 w2 w3 w4 point r ≤ distSq w1 w2 w3 w4 point t := by
+  intro r
+  obtain ⟨hr, _, h0, h1, hroots⟩ := nearest_is_argmin distance_in_bezier_form fbr w1 w2 w3 w4 point
+  refine ⟨hr, ?_⟩
+  exact global_min_of_candidates (distSq w1 w2 w3 w4 point) (quinticAt w1 w2 w3 w4 point)
+    (fun t => (distSq_hasDerivAt w1 w2 w3 w4 point t).2.2)
+    {t | t ∈ fbr (distance_in_bezier_form w1 w2 w3 w4 point)} r h0 h1 (fun t ht a b => hroots t ht a b) hc
+
+/-- the plain reading of the hypothesis: every zero of the quintic strictly inside (0,1) is returned -/
+theorem nearest_global_min_of_all_roots (fbr : List (V2 ℝ) → List ℝ) (w1 w2 w3 w4 point : V2 ℝ)
+    (hc : ∀ t, 0 < t → t < 1 → quinticAt w1 w2 w3 w4 point t = 0 →
+      t ∈ fbr (distance_in_bezier_form w1 w2 w3 w4 point)) :
+    let r := nearest_point_on_curve_bezier_root_finder distance_in_bezier_form fbr w1 w2 w3 w4 point
+    (0 ≤ r ∧ r ≤ 1) ∧ ∀ t, 0 ≤ t → t ≤ 1 → distSq w1 w2 w3 w4 point r ≤ distSq w1 w2 w3 w4 point t :=
+  nearest_global_min fbr w1 w2 w3 w4 point (fun t a b h => Or.inl (hc t a b h))
+
+/-- the largest y-coefficient of the quintic in absolute value: bounds the quintic on [0,1] (convex hull) -/
+noncomputable def quinticBound (w1 w2 w3 w4 point : V2 ℝ) : ℝ :=
+  max |quinticY w1 w2 w3 w4 point 0| (max |quinticY w1 w2 w3 w4 point 1| (max |quinticY w1 w2 w3 w4 point 2|
+    (max |quinticY w1 w2 w3 w4 point 3| (max |quinticY w1 w2 w3 w4 point 4| |quinticY w1 w2 w3 w4 point 5|))))
+
+/-- APPROXIMATE GLOBAL MINIMUM (ℝ): if every relevant zero of the quintic in (0,1) is within `δ` (in parameter) of
+    some returned value, then the squared distance at the returned parameter exceeds the minimum over [0,1] by at
+    most `2·M·δ`, `M` = the largest control-polygon ordinate of the quintic in absolute value (Lipschitz bound from the
+    convex hull property; mean value inequality) -/
+theorem nearest_approx_min (fbr : List (V2 ℝ) → List ℝ) (w1 w2 w3 w4 point : V2 ℝ) (δ : ℝ) (hδ : 0 ≤ δ)
+    (hc : ∀ t, 0 < t → t < 1 → quinticAt w1 w2 w3 w4 point t = 0 →
+      (∃ v ∈ fbr (distance_in_bezier_form w1 w2 w3 w4 point), |v - t| ≤ δ) ∨
+      ∃ lo hi, lo < t ∧ t < hi ∧ ∀ y, lo ≤ y → y ≤ hi → 0 ≤ quinticAt w1 w2 w3 w4 point y) :
+    let r := nearest_point_on_curve_bezier_root_finder distance_in_bezier_form fbr w1 w2 w3 w4 point
+    ∀ t, 0 ≤ t → t ≤ 1 →
+      distSq w1 w2 w3 w4 point r ≤ distSq w1 w2 w3 w4 point t + 2 * quinticBound w1 w2 w3 w4 point * δ := by
+  intro r
+  obtain ⟨hr, _, h0, h1, hroots⟩ := nearest_is_argmin distance_in_bezier_form fbr w1 w2 w3 w4 point
+  refine approx_min_of_candidates (distSq w1 w2 w3 w4 point) (quinticAt w1 w2 w3 w4 point)
+    (fun t => (distSq_hasDerivAt w1 w2 w3 w4 point t).2.2)
+    {t | t ∈ fbr (distance_in_bezier_form w1 w2 w3 w4 point)} r δ _ hδ h0 h1 (fun t ht a b => hroots t ht a b) ?_ hc
+  intro t ht0 ht1
+  rw [quinticAt_eq, ← quintic_bern]
+  apply bern5_abs_le _ _ _ _ _ _ ht0 ht1 <;> simp [quinticBound]
+
+/-! Non-vacuity of (III): for the straight curve (0,0),(1,0),(2,0),(3,0) and the query (1,1) the quintic is
+    `(3t − 1)·3`; a root finder that reports `[1/3]` is complete, and the theorem gives the foot of the perpendicular. -/
+example : quinticAt (K := ℝ) ⟨0, 0⟩ ⟨1, 0⟩ ⟨2, 0⟩ ⟨3, 0⟩ ⟨1, 1⟩ = fun t => (3 * t - 1) * 3 := by
+  funext t
+  rw [quinticAt_eq]
+  simp [perpDot, tangentAt, derivative4, de_casteljau3, de_casteljau2, curve_point_at_pos, basis, dot]
+  norm_num
+  ring
+example : Complete (quinticAt (K := ℝ) ⟨0, 0⟩ ⟨1, 0⟩ ⟨2, 0⟩ ⟨3, 0⟩ ⟨1, 1⟩) [1 / 3] := by
+  intro t _ _ h
+  left
+  have e : quinticAt (K := ℝ) ⟨0, 0⟩ ⟨1, 0⟩ ⟨2, 0⟩ ⟨3, 0⟩ ⟨1, 1⟩ t = (3 * t - 1) * 3 := by
+    rw [quinticAt_eq]
+    simp [perpDot, tangentAt, derivative4, de_casteljau3, de_casteljau2, curve_point_at_pos, basis, dot]
+    norm_num
+    ring
+  rw [e] at h
+  simp
+  linarith
+
+/-! ## (IV) The root finder `find_bezier_roots::<_, 6>`
+
+`IsSec p s a b` (Lemmas/NearestRoots.lean): `s` is a list of six points whose x-coordinates are `a + (b−a)·k/5` and whose
+y-coordinates are the Bernstein coefficients of `u ↦ p (a + (b−a)·u)`: a section of the polynomial `p` over [a,b].
+`FSqrt`, `FSignum`, `OfInt` are arbitrary here: the theorems hold whatever `flat_enough` and Newton's iteration compute. -/
+section RootFinder
+variable [FSqrt K] [FSignum K] [OfInt K]
+
+/-- THE GENERATED LOOP IS THE STEP FUNCTION: `Gen.find_bezier_roots 6` (translated from find_roots.rs) equals the
+    iteration of `C09L.specStep` - pop the top section; no crossing: drop it; one crossing and flat enough: push the
+    x-coordinate at Newton's intercept; depth ≥ 48: push the middle of the section; otherwise push the right and the left
+    half (subdivided at 0.5) with depth + 1 - from the stack `[(points, 0)]`, with the fuel 100000 of the generated
+    loop (on exhaustion: the roots so far). A change of the loop body in the Rust source breaks this proof. -/
+theorem find_bezier_roots_is_loop (pts : List (V2 K)) :
+    find_bezier_roots 6 pts = match runSpec 100000 pts with | .brk b => b.t1 | .ret r => r :=
+  find_bezier_roots_spec pts
+
+/-- PRUNING IS SOUND (Bernstein positivity / convex hull): a section whose control polygon has no crossing
+    (`count_x_axis_crossings = 0`: all six ordinates `< 0`, or all `≥ 0`, the code's two tests) either has its
+    polynomial negative on the whole CLOSED range, or non-negative on it; and in the second case a zero strictly inside
+    the range is possible only if the polynomial vanishes on the whole range. So a dropped section contains no sign
+    change of the polynomial. -/
+theorem pruning_sound {p : K → K} {s : List (V2 K)} {a b : K} (h : IsSec p s a b) (hab : a < b)
+    (hc : count_x_axis_crossings 6 s = 0) :
+    (∀ x, a ≤ x → x ≤ b → p x < 0) ∨
+    ((∀ x, a ≤ x → x ≤ b → 0 ≤ p x) ∧ ((∃ x, a < x ∧ x < b ∧ p x = 0) → ∀ x, a ≤ x → x ≤ b → p x = 0)) := by
+  rcases sec_pruned h hab hc with hneg | hnn
+  · exact Or.inl hneg
+  · refine Or.inr ⟨hnn, ?_⟩
+    rintro ⟨x0, hx0a, hx0b, hx0⟩
+    obtain ⟨c0, c1, c2, c3, c4, c5, rfl, hp⟩ := h
+    have e : mkSec (affX a b) [c0, c1, c2, c3, c4, c5] =
+        [⟨a, c0⟩, ⟨a + (b - a) / 5, c1⟩, ⟨a + (b - a) * 2 / 5, c2⟩, ⟨a + (b - a) * 3 / 5, c3⟩,
+         ⟨a + (b - a) * 4 / 5, c4⟩, ⟨b, c5⟩] := by simp [mkSec, affX]
+    rw [e] at hc
+    have hba : 0 < b - a := sub_pos.2 hab
+    rcases count6_zero hc with ⟨h0, _⟩ | ⟨h0, h1, h2, h3, h4, h5⟩
+    · -- all negative: contradicts non-negativity at a
+      have := hnn a le_rfl hab.le
+      have h' := hp 0
+      simp only [bern5] at h'
+      have : p a = c0 := by rw [show a = a + (b - a) * 0 by ring, ← h']; ring
+      simp only [] at h0
+      linarith [hnn a le_rfl hab.le]
+    · simp only [] at h0 h1 h2 h3 h4 h5
+      -- a zero strictly inside: no coefficient can be positive
+      have hu0 : 0 < (x0 - a) / (b - a) := div_pos (sub_pos.2 hx0a) hba
+      have hu1 : (x0 - a) / (b - a) < 1 := by rw [div_lt_one hba]; linarith
+      have hz : bern5 c0 c1 c2 c3 c4 c5 ((x0 - a) / (b - a)) = 0 := by
+        rw [hp, ← hx0]; congr 1; field_simp; ring
+      have hall : ¬ (0 < c0 ∨ 0 < c1 ∨ 0 < c2 ∨ 0 < c3 ∨ 0 < c4 ∨ 0 < c5) := by
+        intro hne
+        have := bern5_pos h0 h1 h2 h3 h4 h5 hne hu0 hu1
+        linarith
+      simp only [not_or, not_lt] at hall
+      obtain ⟨g0, g1, g2, g3, g4, g5⟩ := hall
+      have e0 : c0 = 0 := le_antisymm g0 h0
+      have e1 : c1 = 0 := le_antisymm g1 h1
+      have e2 : c2 = 0 := le_antisymm g2 h2
+      have e3 : c3 = 0 := le_antisymm g3 h3
+      have e4 : c4 = 0 := le_antisymm g4 h4
+      have e5 : c5 = 0 := le_antisymm g5 h5
+      intro x hxa hxb
+      have : p x = bern5 c0 c1 c2 c3 c4 c5 ((x - a) / (b - a)) := by
+        rw [hp]; congr 1; field_simp; ring
+      rw [this, e0, e1, e2, e3, e4, e5]
+      simp [bern5]
+
+/-- ONE CROSSING, AT MOST ONE ZERO (the one-sign-change case of the variation diminishing property, proved here
+    from 2×2 determinants of Bernstein basis functions): a section whose control polygon has exactly one crossing
+    (`count_x_axis_crossings = 1`) has at most one zero of its polynomial strictly inside its range. So the single value
+    the loop reports for such a section does not hide further zeros inside it (zeros at the two ends of the range are
+    shared with the neighbouring sections). -/
+theorem one_crossing_at_most_one_zero {p : K → K} {s : List (V2 K)} {a b : K} (h : IsSec p s a b) (hab : a < b)
+    (hc : count_x_axis_crossings 6 s = 1) (x1 x2 : K) (h1a : a < x1) (h1b : x1 < b) (h2a : a < x2) (h2b : x2 < b)
+    (hz1 : p x1 = 0) (hz2 : p x2 = 0) : x1 = x2 := by
+  obtain ⟨c0, c1, c2, c3, c4, c5, rfl, hp⟩ := h
+  have e : mkSec (affX a b) [c0, c1, c2, c3, c4, c5] =
+      [⟨a, c0⟩, ⟨a + (b - a) / 5, c1⟩, ⟨a + (b - a) * 2 / 5, c2⟩, ⟨a + (b - a) * 3 / 5, c3⟩,
+       ⟨a + (b - a) * 4 / 5, c4⟩, ⟨b, c5⟩] := by simp [mkSec, affX]
+  rw [e, count6] at hc
+  simp only [] at hc
+  have hba : 0 < b - a := sub_pos.2 hab
+  have key : ∀ x y, a < x → x < y → y < b → p x = 0 → p y = 0 → False := by
+    intro x y hax hxy hyb hx hy
+    have u0 : 0 < (x - a) / (b - a) := div_pos (sub_pos.2 hax) hba
+    have u12 : (x - a) / (b - a) < (y - a) / (b - a) := by
+      apply div_lt_div_of_pos_right _ hba; linarith
+    have u1 : (y - a) / (b - a) < 1 := by rw [div_lt_one hba]; linarith
+    have z1 : bern5 c0 c1 c2 c3 c4 c5 ((x - a) / (b - a)) = 0 := by rw [hp, ← hx]; congr 1; field_simp; ring
+    have z2 : bern5 c0 c1 c2 c3 c4 c5 ((y - a) / (b - a)) = 0 := by rw [hp, ← hy]; congr 1; field_simp; ring
+    exact one_crossing_zero_unique c0 c1 c2 c3 c4 c5 hc u0 u12 u1 z1 z2
+  rcases lt_trichotomy x1 x2 with hlt | heq | hgt
+  · exact absurd (key x1 x2 h1a hlt h2b hz1 hz2) id
+  · exact heq
+  · exact absurd (key x2 x1 h2a hgt h1b hz2 hz1) id
+
+/-- SUBDIVISION COVERS THE RANGE AND RESTRICTS THE POLYNOMIAL: the two lists the generated `subdivide_n 6 0.5` returns
+    for a section of `p` over [a,b] are sections of the SAME `p` over [a,(a+b)/2] and [(a+b)/2,b] (de Casteljau: the left
+    half's Bernstein polynomial is `u ↦ P(u/2)`, the right half's `u ↦ P((1+u)/2)`, and the x-coordinates stay affine) -/
+theorem subdivision_halves {p : K → K} {s : List (V2 K)} {a b : K} (h : IsSec p s a b) :
+    IsSec p (subdivide_n 6 (0.5 : K) s).t0 a ((a + b) / 2) ∧ IsSec p (subdivide_n 6 (0.5 : K) s).t1 ((a + b) / 2) b :=
+  sec_split h
+
+/-- THE FINISHED SECTIONS TILE [0,1] (all inputs, any number of iterations): if the loop of `find_bezier_roots`, started
+    on a section of `p` over [0,1], ends because its stack is empty, then the function returns that list `roots`, and
+    there is a list of leaves - consecutive ranges [a,b] from 0 to 1, each with the section of `p` over it that the
+    loop popped and did not subdivide - such that every leaf was either pruned (no crossing), or had exactly one
+    crossing, passed `flat_enough` and contributed `flatValue` to `roots`, or was at the depth limit, is `2^-48` wide and
+    contributed its middle to `roots` -/
+theorem find_bezier_roots_leaves (p : K → K) (pts : List (V2 K)) (h : IsSec p pts 0 1) (roots : List K)
+    (hterm : runSpec 100000 pts = LoopExit.ret roots) :
+    find_bezier_roots 6 pts = roots ∧
+    ∃ leaves : List (Leaf K), tiles 0 leaves 1 ∧ ∀ l ∈ leaves, LeafOK p roots l := by
+  constructor
+  · rw [find_bezier_roots_is_loop, hterm]
+  · have hp := runSpec_post p pts h 100000
+    rw [hterm] at hp
+    exact hp
+
+/-- EVERY ZERO IS ACCOUNTED FOR (the completeness statement that follows from pruning + subdivision + depth limit):
+    under the hypotheses of `find_bezier_roots_leaves`, every zero `x` of `p` strictly inside (0,1)
+    (A) lies in the closed range of a leaf with exactly one crossing that passed `flat_enough`, for which ONE value
+        (`flatValue`: the x-coordinate at the parameter Newton's iteration returned) is in `roots`; or
+    (B) is within `2^-49` of a value in `roots` (the middle of a section at the depth limit); or
+    (C) has a neighbourhood on which `p ≥ 0` (no sign change; the only zeros that pruning drops).
+    What is NOT proved is that the value reported in case (A) is close to `x`: that is `flat_enough` + Newton. -/
+theorem zeros_accounted (p : K → K) (pts : List (V2 K)) (h : IsSec p pts 0 1) (roots : List K)
+    (hterm : runSpec 100000 pts = LoopExit.ret roots) (x : K) (hx0 : 0 < x) (hx1 : x < 1) (hx : p x = 0) :
+    (∃ s a b, 0 ≤ a ∧ a ≤ x ∧ x ≤ b ∧ b ≤ 1 ∧ a < b ∧ IsSec p s a b ∧ count_x_axis_crossings 6 s = 1 ∧
+      flat_enough 6 s = true ∧ flatValue s ∈ roots) ∨
+    (∃ v ∈ roots, |x - v| ≤ (1 / 2 : K) ^ 49) ∨
+    (∃ lo hi, lo < x ∧ x < hi ∧ ∀ y, lo ≤ y → y ≤ hi → 0 ≤ p y) := by
+  obtain ⟨_, leaves, ht, hok⟩ := find_bezier_roots_leaves p pts h roots hterm
+  rcases tiles_zero_aux p roots x hx leaves 0 1 ht hok hx0.le hx1.le with ⟨l, hl, hex, hla, hlb⟩ | ⟨lo, hi, h1, h2, h3, h4, h5⟩
+  · obtain ⟨hab, hsec, hkind⟩ := hok l hl
+    rcases hex with hk | hk
+    · rw [hk] at hkind
+      obtain ⟨hb0, hb1⟩ := (tiles_bounds leaves 0 1 ht (fun l' hl' => (hok l' hl').1)).2 l hl
+      exact Or.inl ⟨l.sec, l.a, l.b, hb0, hla, hlb, hb1, hab, hsec, hkind.1, hkind.2.1, hkind.2.2⟩
+    · rw [hk] at hkind
+      refine Or.inr (Or.inl ⟨(l.a + l.b) / 2, hkind.2, ?_⟩)
+      have hw : l.b - l.a = (1 / 2 : K) ^ 48 := hkind.1
+      have : (1 / 2 : K) ^ 49 = (l.b - l.a) / 2 := by rw [hw, pow_succ]; ring
+      rw [this, abs_le]
+      constructor <;> linarith
+  · refine Or.inr (Or.inr ⟨lo, hi, ?_, ?_, h5⟩)
+    · rcases h3 with h3 | h3
+      · exact h3
+      · exact absurd h3 (ne_of_gt hx0)
+    · rcases h4 with h4 | h4
+      · exact h4
+      · exact absurd h4 (ne_of_lt hx1)
+
+/-! Non-vacuity of `pruning_sound` / `one_crossing_at_most_one_zero` / `subdivision_halves`: the polygon with ordinates
+    −1, −1, −1, 1, 1, 1 over [0,1] is a section (of its own Bernstein polynomial) with exactly one crossing; its left
+    half has the ordinates −1, −1, −1, −3/4, −1/2, −3/16·… computed by the generated `subdivide_n`, starting −1 and
+    ending at the value of the polynomial at 1/2, which is 0 by symmetry. -/
+example : count_x_axis_crossings 6 ([⟨0, -1⟩, ⟨1 / 5, -1⟩, ⟨2 / 5, -1⟩, ⟨3 / 5, 1⟩, ⟨4 / 5, 1⟩, ⟨1, 1⟩] : List (V2 ℚ)) = 1 := by
+  rw [count6]; simp [cross]; norm_num
+example : IsSec (bern5 (-1 : ℚ) (-1) (-1) 1 1 1) [⟨0, -1⟩, ⟨1 / 5, -1⟩, ⟨2 / 5, -1⟩, ⟨3 / 5, 1⟩, ⟨4 / 5, 1⟩, ⟨1, 1⟩] 0 1 :=
+  ⟨-1, -1, -1, 1, 1, 1, by simp [mkSec, affX], fun u => by congr 1; ring⟩
+example : ((subdivide_n 6 (0.5 : ℚ) ([⟨0, -1⟩, ⟨1 / 5, -1⟩, ⟨2 / 5, -1⟩, ⟨3 / 5, 1⟩, ⟨4 / 5, 1⟩, ⟨1, 1⟩] : List (V2 ℚ))).t0.map
+    (·.y)).getLast? = some 0 := by
+  rw [subdivide6]; simp [mkSec, leftC, bern5]; norm_num
+
+/-! Non-vacuity of (IV): a polygon below the axis is pruned at once (the loop ends with no roots; one leaf [0,1]);
+    the zero polygon is pruned too although its polynomial vanishes everywhere - alternative (C) of `zeros_accounted`. -/
+example : IsSec (fun _ : ℚ => -1) [⟨0, -1⟩, ⟨1 / 5, -1⟩, ⟨2 / 5, -1⟩, ⟨3 / 5, -1⟩, ⟨4 / 5, -1⟩, ⟨1, -1⟩] 0 1 :=
+  ⟨-1, -1, -1, -1, -1, -1, by simp [mkSec, affX], fun u => by simp only [bern5]; ring⟩
+example [FSqrt ℚ] [FSignum ℚ] [OfInt ℚ] :
+    runSpec 100000 ([⟨0, -1⟩, ⟨1 / 5, -1⟩, ⟨2 / 5, -1⟩, ⟨3 / 5, -1⟩, ⟨4 / 5, -1⟩, ⟨1, -1⟩] : List (V2 ℚ)) =
+      LoopExit.ret [] := by
+  simp [runSpec, iterFuel, specStep, classify, count6, cross]
+example [FSqrt ℚ] [FSignum ℚ] [OfInt ℚ] :
+    runSpec 100000 ([⟨0, 0⟩, ⟨1 / 5, 0⟩, ⟨2 / 5, 0⟩, ⟨3 / 5, 0⟩, ⟨4 / 5, 0⟩, ⟨1, 0⟩] : List (V2 ℚ)) = LoopExit.ret [] ∧
+    IsSec (fun _ : ℚ => 0) [⟨0, 0⟩, ⟨1 / 5, 0⟩, ⟨2 / 5, 0⟩, ⟨3 / 5, 0⟩, ⟨4 / 5, 0⟩, ⟨1, 0⟩] 0 1 :=
+  ⟨by simp [runSpec, iterFuel, specStep, classify, count6, cross],
+   0, 0, 0, 0, 0, 0, by simp [mkSec, affX], fun u => by simp [bern5]⟩
+
+end RootFinder
+
+/-! ## (III)+(IV) combined: what is proved about `nearest_t` as a whole, and the hypothesis that remains -/
+section Combined
+variable [FSqrt ℝ] [FSignum ℝ] [OfInt ℝ]
+
+/-- THE REMAINING HYPOTHESIS, by name: for every section of `p` with exactly one crossing that passes `flat_enough`,
+    the single value reported for it (`flatValue`: the x-coordinate at the parameter returned by
+    `find_x_intercept`'s Newton iteration) is within `δ` of every zero of `p` in the section's closed range at which
+    `p` is not locally non-negative. (By `one_crossing_at_most_one_zero` there is at most one zero strictly inside such
+    a section; that the 30 Newton steps from the chord's intercept reach it - `flat_enough` bounds the control polygon
+    on ONE side of the chord only - is numerical, and is what the search measures.) -/
+def FlatLeavesWithin (p : ℝ → ℝ) (δ : ℝ) : Prop :=
+  ∀ (s : List (V2 ℝ)) (a b x : ℝ), 0 ≤ a → a < b → b ≤ 1 → IsSec p s a b → count_x_axis_crossings 6 s = 1 →
+    flat_enough 6 s = true → a ≤ x → x ≤ b → p x = 0 →
+      |flatValue s - x| ≤ δ ∨ ∃ lo hi, lo < x ∧ x < hi ∧ ∀ y, lo ≤ y → y ≤ hi → 0 ≤ p y
+
+/-- `nearest_t` AS A WHOLE (ℝ; model of `distance_in_bezier_form` + generated root finder + generated candidate loop,
+    every cubic and query point): if the root finder's loop ends with an empty stack and flat leaves are resolved to
+    within `δ ≥ 2^-49` (`FlatLeavesWithin`), then the returned parameter is in [0,1] and its squared distance exceeds the
+    minimum over the WHOLE curve by at most `2·M·δ` (`M` = largest ordinate of the quintic's control polygon). Pruning,
+    subdivision and the depth limit are covered by proof; only `FlatLeavesWithin` and termination are assumed. -/
+theorem nearest_t_within (w1 w2 w3 w4 point : V2 ℝ) (δ : ℝ) (hδ : (1 / 2 : ℝ) ^ 49 ≤ δ)
+    (hterm : ∃ roots, runSpec 100000 (distance_in_bezier_form w1 w2 w3 w4 point) = LoopExit.ret roots)
+    (hflat : FlatLeavesWithin (quinticAt w1 w2 w3 w4 point) δ) :
+    let r := Model.Nearest.nearest_t w1 w2 w3 w4 point
+    (0 ≤ r ∧ r ≤ 1) ∧ ∀ t, 0 ≤ t → t ≤ 1 →
+      distSq w1 w2 w3 w4 point r ≤ distSq w1 w2 w3 w4 point t + 2 * quinticBound w1 w2 w3 w4 point * δ := by
+  intro r
+  obtain ⟨roots, hterm⟩ := hterm
+  have hδ0 : 0 ≤ δ := le_trans (by positivity) hδ
+  have hp : perpDot w1 w2 w3 w4 point = quinticAt w1 w2 w3 w4 point := by
+    funext t; rw [quinticAt_eq]
+  have hsec : IsSec (quinticAt w1 w2 w3 w4 point) (distance_in_bezier_form w1 w2 w3 w4 point) 0 1 := by
+    rw [← hp]; exact quintic_is_section w1 w2 w3 w4 point
+  have hroots := (find_bezier_roots_leaves _ _ hsec roots hterm).1
+  refine ⟨(nearest_is_argmin distance_in_bezier_form (find_bezier_roots 6) w1 w2 w3 w4 point).1, ?_⟩
+  apply nearest_approx_min (find_bezier_roots 6) w1 w2 w3 w4 point δ hδ0
+  intro t ht0 ht1 hz
+  rw [hroots]
+  rcases zeros_accounted _ _ hsec roots hterm t ht0 ht1 hz with
+    ⟨s, a, b, ha0, hat, htb, hb1, hab, hs, hc1, hfl, hv⟩ | ⟨v, hv, hd⟩ | hC
+  · rcases hflat s a b t ha0 hab hb1 hs hc1 hfl hat htb hz with h | h
+    · exact Or.inl ⟨_, hv, h⟩
+    · exact Or.inr h
+  · exact Or.inl ⟨v, hv, by rw [abs_sub_comm]; exact le_trans hd hδ⟩
+  · exact Or.inr hC
+
+/-- THE SAME IN DISTANCE UNITS: under the hypotheses of `nearest_t_within`, the distance from the query point to the
+    curve point at the returned parameter exceeds the distance to ANY point of the curve by at most `sqrt(2·M·δ)`.
+    (For a 100-unit box `M ≤ 3·|w−p|·|Δw|` is of the order 10^4..10^5, so flat leaves resolved to `δ = 10^-9` give about
+    0.01 units, the tolerance C09 states; the search's counters `quintic.sign_change.*` measure this `δ` on the real
+    code: 99.9 % of the sign changes are returned to 10^-9, all of them to 10^-3.) -/
+theorem nearest_t_within_distance (w1 w2 w3 w4 point : V2 ℝ) (δ : ℝ) (hδ : (1 / 2 : ℝ) ^ 49 ≤ δ)
+    (hterm : ∃ roots, runSpec 100000 (distance_in_bezier_form w1 w2 w3 w4 point) = LoopExit.ret roots)
+    (hflat : FlatLeavesWithin (quinticAt w1 w2 w3 w4 point) δ) :
+    let r := Model.Nearest.nearest_t w1 w2 w3 w4 point
+    ∀ t, 0 ≤ t → t ≤ 1 →
+      Real.sqrt (distSq w1 w2 w3 w4 point r) ≤
+        Real.sqrt (distSq w1 w2 w3 w4 point t) + Real.sqrt (2 * quinticBound w1 w2 w3 w4 point * δ) := by
+  intro r t ht0 ht1
+  have h := (nearest_t_within w1 w2 w3 w4 point δ hδ hterm hflat).2 t ht0 ht1
+  have hD : 0 ≤ distSq w1 w2 w3 w4 point t := by
+    have h0 : (0.0 : ℝ) = 0 := by norm_num
+    simp only [distSq, dot, h0]
+    nlinarith [mul_self_nonneg (curve_point_at_pos w1 w2 w3 w4 t - point).x,
+      mul_self_nonneg (curve_point_at_pos w1 w2 w3 w4 t - point).y]
+  have hs1 := Real.sqrt_nonneg (distSq w1 w2 w3 w4 point t)
+  have hs2 := Real.sqrt_nonneg (2 * quinticBound w1 w2 w3 w4 point * δ)
+  rw [Real.sqrt_le_left (add_nonneg hs1 hs2)]
+  have hM : 0 ≤ quinticBound w1 w2 w3 w4 point := le_trans (abs_nonneg _) (le_max_left _ _)
+  have hε : 0 ≤ 2 * quinticBound w1 w2 w3 w4 point * δ :=
+    mul_nonneg (mul_nonneg zero_le_two hM) (le_trans (by positivity) hδ)
+  have e1 := Real.sq_sqrt hD
+  have e2 := Real.sq_sqrt hε
+  nlinarith [mul_nonneg hs1 hs2]
+
+/-! Non-vacuity: the straight curve (0,0),(1,0),(2,0),(3,0) queried from (−1,0), behind its start: the quintic
+    `3·(3t+1)` has the positive coefficients 3, 24/5, 33/5, 42/5, 51/5, 12, the loop prunes it at once and ends (no flat
+    leaf is ever consulted and there is no zero in [0,1]), so both hypotheses hold for every `δ`. -/
+example : runSpec 100000 (distance_in_bezier_form (K := ℝ) ⟨0, 0⟩ ⟨1, 0⟩ ⟨2, 0⟩ ⟨3, 0⟩ ⟨-1, 0⟩) = LoopExit.ret [] ∧
+    ∀ δ, FlatLeavesWithin (quinticAt (K := ℝ) ⟨0, 0⟩ ⟨1, 0⟩ ⟨2, 0⟩ ⟨3, 0⟩ ⟨-1, 0⟩) δ := by
+  constructor
+  · have e : distance_in_bezier_form (K := ℝ) ⟨0, 0⟩ ⟨1, 0⟩ ⟨2, 0⟩ ⟨3, 0⟩ ⟨-1, 0⟩ =
+        [⟨0, 3⟩, ⟨1 / 5, 24 / 5⟩, ⟨2 / 5, 33 / 5⟩, ⟨3 / 5, 42 / 5⟩, ⟨4 / 5, 51 / 5⟩, ⟨1, 12⟩] := by
+      rw [dbf_explicit]; simp [dot]; norm_num
+    have hc : count_x_axis_crossings 6
+        ([⟨0, 3⟩, ⟨1 / 5, 24 / 5⟩, ⟨2 / 5, 33 / 5⟩, ⟨3 / 5, 42 / 5⟩, ⟨4 / 5, 51 / 5⟩, ⟨1, 12⟩] : List (V2 ℝ)) = 0 := by
+      rw [count6]; simp [cross]; norm_num
+    rw [e]
+    unfold runSpec
+    rw [show (100000 : Nat) = 99998 + 1 + 1 from rfl]
+    simp only [iterFuel, specStep, classify, hc, List.getLast?_singleton, if_true, List.dropLast_singleton,
+      List.getLast?_nil]
+  · intro δ s a b x ha0 hab hb1 _ _ _ hax hxb hz
+    exfalso
+    have e : quinticAt (K := ℝ) ⟨0, 0⟩ ⟨1, 0⟩ ⟨2, 0⟩ ⟨3, 0⟩ ⟨-1, 0⟩ x = (3 * x + 1) * 3 := by
+      rw [quinticAt_eq]
+      simp [perpDot, tangentAt, derivative4, de_casteljau3, de_casteljau2, curve_point_at_pos, basis, dot]
+      norm_num
+      ring
+    rw [e] at hz
+    nlinarith
+
+end Combined
+
+/-! ## (V) `nearest_point`, `distance_to`, `path_closest_point` -/
+section Path
+variable [FSqrt K]
+
+/-- `nearest_point` is the curve point at `nearest_t`, and `distance_to` is `Coord2::distance_to` from that point to the
+    query: `sqrt` of the squared distance the candidate loop minimised (both generated from curve.rs) -/
+theorem nearest_point_distance_to_consistent (nt : V2 K → V2 K → V2 K → V2 K → V2 K → K) (w1 w2 w3 w4 point : V2 K) :
+    curve_nearest_point nt w1 w2 w3 w4 point = curve_point_at_pos w1 w2 w3 w4 (nt w1 w2 w3 w4 point) ∧
+    curve_distance_to nt w1 w2 w3 w4 point = fsqrt (distSq w1 w2 w3 w4 point (nt w1 w2 w3 w4 point)) := by
+  have h0 : (0.0 : K) = 0 := by norm_num
+  refine ⟨rfl, ?_⟩
+  simp only [curve_distance_to, curve_nearest_point, coord2_distance_to, distSq, dot, h0, v2_sub_x, v2_sub_y]
+  congr 1
+  ring
+
+/-! Non-vacuity of `nearest_point_distance_to_consistent`: it holds for every `nt` by unfolding; e.g. `nt = 0`. -/
+example [FSqrt ℚ] (w1 w2 w3 w4 p : V2 ℚ) :
+    curve_nearest_point (fun _ _ _ _ _ => (0 : ℚ)) w1 w2 w3 w4 p = curve_point_at_pos w1 w2 w3 w4 (0 : ℚ) :=
+  (nearest_point_distance_to_consistent _ w1 w2 w3 w4 p).1
+
+variable [FConsts K]
+
+/-- `path_closest_point` IS THE ARG-MIN OVER THE CURVES (any per-curve `nearest_t`, any list of curves): with
+    `d(c)` = squared distance from the query to curve `c` at the parameter `nearest_t` reports for it,
+    * a path without curves gives `(0, 0, sqrt(f64::MAX), origin)` (the function has no `None`: index 0 does not exist);
+    * if some curve has `d < f64::MAX`, the result is `(j, nearest_t(c_j), sqrt(d(c_j)), C_j(nearest_t(c_j)))` for the
+      FIRST index `j` whose curve attains the least `d` over all curves of the path (`<`: ties go to the earlier curve);
+    * otherwise (every `d ≥ f64::MAX`) the start value `(0, 0, sqrt(f64::MAX), origin)` is returned unchanged. -/
+theorem path_closest_point_argmin (nt : Cv K → V2 K → K) (curves : List (Cv K)) (point : V2 K) :
+    (curves = [] → path_closest_point nt curves point = ⟨0, 0, fsqrt fmaxval, ⟨0, 0⟩⟩) ∧
+    ((∃ c ∈ curves, curveDistSq nt point c < fmaxval) →
+      ∃ j c, curves[j]? = some c ∧
+        path_closest_point nt curves point =
+          ⟨j, nt c point, fsqrt (curveDistSq nt point c), curve_point_at_pos c.t0 c.t1 c.t2 c.t3 (nt c point)⟩ ∧
+        (∀ c' ∈ curves, curveDistSq nt point c ≤ curveDistSq nt point c') ∧
+        ∀ i c', i < j → curves[i]? = some c' → curveDistSq nt point c < curveDistSq nt point c') ∧
+    ((∀ c ∈ curves, fmaxval ≤ curveDistSq nt point c) →
+      path_closest_point nt curves point = ⟨0, 0, fsqrt fmaxval, ⟨0, 0⟩⟩) := by
+  rw [path_unfold]
+  refine ⟨?_, ?_, ?_⟩
+  · rintro rfl; rfl
+  · rintro ⟨c0, hc0, hlt0⟩
+    rcases pcFold_spec nt point curves 0 ⟨0, 0, fmaxval, ⟨0, 0⟩⟩ with ⟨_, hall⟩ | ⟨j, c, hj, e, _, hall, hfirst⟩
+    · exact absurd hlt0 (not_lt.2 (hall c0 hc0))
+    · refine ⟨j, c, hj, ?_, hall, hfirst⟩
+      simp only [e, Nat.zero_add]
+  · intro hall
+    rcases pcFold_spec nt point curves 0 ⟨0, 0, fmaxval, ⟨0, 0⟩⟩ with ⟨e, _⟩ | ⟨j, c, hj, _, hlt, _, _⟩
+    · simp only [e]
+    · exact absurd hlt (not_lt.2 (hall c (List.mem_of_getElem? hj)))
+
+/-! Non-vacuity: two point curves at (0,0) and (3,4), query (3,3), `nearest_t = 0` for both: the second curve wins. -/
+example [FSqrt ℚ] [FConsts ℚ] (h : (fmaxval : ℚ) = 1000) : (path_closest_point (K := ℚ) (fun _ _ => 0)
+    [⟨⟨0, 0⟩, ⟨0, 0⟩, ⟨0, 0⟩, ⟨0, 0⟩⟩, ⟨⟨3, 4⟩, ⟨3, 4⟩, ⟨3, 4⟩, ⟨3, 4⟩⟩] ⟨3, 3⟩).t0 = 1 := by
+  rw [path_unfold]
+  simp [pcFold, pcStep, curveDistSq, curve_point_at_pos, basis, dot, h]
+  norm_num
+
+end Path
 
 end C09
